@@ -275,7 +275,7 @@ func vfC04Gen(rt *rapid.T) vfC04Case {
 			return op
 		}
 	})
-	c.Ops = rapid.SliceOfN(opGen, 1, 40).Draw(rt, "ops")
+	c.Ops = vfListOf(rt, "ops", opGen, 1, 40)
 	c.Ops = append(c.Ops, vfMOp{Op: "search", Entry: "filters", Groups: [][]vfMFilter{{vfGenMFilter(rt, stored)}}})
 	return c
 }
@@ -508,6 +508,7 @@ func vfRunMetaSearch(idx MetadataIndex, op *vfMOp) ([]uint32, error) {
 }
 
 func vfC04Run(c vfC04Case, ctx *vfCtx) *vfViolation {
+	ctx.HistoryLen("history", len(c.Ops))
 	idx := NewRoaringMetadataIndex()
 	m := &vfMetaModel{docs: map[uint32]map[string]vfMVal{}}
 	removedMatching := false
